@@ -3,7 +3,7 @@
     extensionality: two strictly sorted listings with the same lookups are the same list, so the
     sorted listing is a canonical representative of the finite map it denotes.  Lemma file. *)
 From Coq Require Import List Bool Sorted.
-From Mast Require Import Prim Tree Spec.
+From Mast Require Import Prim Tree KeyOrder Erase Build Spec Canon Level Inv.
 Import ListNotations.
 
 Section SPECLAWS.
@@ -95,3 +95,25 @@ Proof.
     apply cmp_eq in E. subst k. rewrite (lookup_below ka a Ga), (lookup_below ka b Gb). reflexivity.
 Qed.
 End SPECLAWS.
+
+(** * equal maps, identical trees: "equal contents" taken extensionally (the same value, or none, under
+    every key) already forces the same listing, hence the same height, size and shape *)
+Section CANONEXT.
+Variables (K V : Type) (cmp : K -> K -> comparison) (layer : K -> nat).
+Hypothesis cmp_eq : forall a b, cmp a b = Eq <-> a = b.
+Hypothesis cmp_antisym : forall a b, cmp b a = CompOpp (cmp a b).
+Hypothesis cmp_trans : forall a b c, cmp a b = Lt -> cmp b c = Lt -> cmp a c = Lt.
+
+Theorem canon_unique_ext bf m1 m2 l1 l2 :
+  canon K V cmp layer bf m1 l1 -> canon K V cmp layer bf m2 l2 ->
+  (forall k, Spec.lookup K V cmp k l1 = Spec.lookup K V cmp k l2) ->
+  l1 = l2 /\ m_height K V m1 = m_height K V m2 /\ m_size K V m1 = m_size K V m2 /\
+  exists n1 n2, root_n K V (m_root K V m1) = Some n1 /\ root_n K V (m_root K V m2) = Some n2 /\
+                erase_n K V n1 = erase_n K V n2.
+Proof.
+  intros C1 C2 H.
+  assert (E : l1 = l2).
+  { apply (sorted_ext K V cmp cmp_eq cmp_antisym cmp_trans); [exact (cn_sorted _ _ _ _ _ _ _ C1)|exact (cn_sorted _ _ _ _ _ _ _ C2)|exact H]. }
+  subst l2. split; [reflexivity|]. exact (canon_unique K V cmp layer bf m1 m2 l1 C1 C2).
+Qed.
+End CANONEXT.
